@@ -264,7 +264,7 @@ def _rule_r2_r3(text, log):
         nonlocal n3
         n3 += 1
         return '%sfor %s in 0..%s.len() { let %s = %s[%s];' % (mm.group(1), mm.group(2), mm.group(4), mm.group(3), mm.group(4), mm.group(2))
-    text = re.sub(r"((?:'[a-z_]+\s*:\s*)?)for\s*\(\s*([a-z_][a-z0-9_]*)\s*,\s*([a-z_][a-z0-9_]*)\s*\)\s+in\s+([A-Za-z_][A-Za-z0-9_.]*?)\.into_iter\(\)\.enumerate\(\)\s*\{", r3v, text)
+    text = re.sub(r"((?:'[a-z_]+\s*:\s*)?)for\s*\(\s*([a-z_][a-z0-9_]*)\s*,\s*([a-z_][a-z0-9_]*|\([a-z0-9_,\s]*\))\s*\)\s+in\s+([A-Za-z_][A-Za-z0-9_.]*?)\.into_iter\(\)\.enumerate\(\)\s*\{", r3v, text)
 
     def r2(mm):
         nonlocal n2
@@ -519,6 +519,30 @@ def _rule_r6(text, log):
                '            }\n'
                '            match __r6_found { Some(__r6_v) => __r6_v, None => %s } })') % (E, x, E, body, alt)
         out = out[:mm.start()] + rep + out[close2 + 1:]
+        n += 1
+    # (m) (A..B).into_iter().map(|i| BODY).collect()  -> loop pushing BODY for i = A, A+1, .., B-1 in order
+    while True:
+        m = rs.mask(out)
+        mm = re.search(r'\(\s*([A-Za-z0-9_]+)\s*\.\.\s*([A-Za-z0-9_.()]+?)\s*\)\s*\.into_iter\(\)\s*\.map\(', m)
+        if not mm:
+            break
+        op = mm.end() - 1
+        close = rs.match_brace(m, op)
+        inner = out[op + 1:close]
+        cm = re.match(r'\s*\|\s*([a-z_][a-z0-9_]*)\s*\|\s*', inner)
+        tm = re.match(r'\s*\.collect\(\)', m[close + 1:])
+        if not cm or not tm:
+            raise Unsupported('R6m: (a..b).into_iter().map(..).collect() shape not recognised')
+        x, body = cm.group(1), inner[cm.end():].strip()
+        rep = ('({ let mut __r6_out = Vec::new(); let mut __r6_k: usize = %s;\n'
+               '            while __r6_k < %s {\n'
+               '                let %s = __r6_k;\n'
+               '                let __r6_e = %s;\n'
+               '                __r6_out.push(__r6_e);\n'
+               '                __r6_k += 1;\n'
+               '            }\n'
+               '            __r6_out })') % (mm.group(1), mm.group(2), x, body)
+        out = out[:mm.start()] + rep + out[close + 1 + tm.end():]
         n += 1
     # (j) E.retain(|x| BODY);  -> rebuild E from the elements for which BODY holds, in order (T: Copy)
     while True:
@@ -1190,6 +1214,12 @@ def generate(unit_path, repo=REPO):
                 if opts.get('vis') == 'priv':
                     # visibility only: lets the contract mention private fields (logged as rule V)
                     text, nv = re.subn(r'^(\s*(?:#\[[^\]]*\]\s*)*)pub(?:\([a-z]+\))?\s+', r'\1', text, count=1)
+                    if not nv:
+                        mt = rs.mask(text)
+                        mv = re.search(r'\bpub(?:\([a-z]+\))?\s+(?=(?:const\s+|unsafe\s+)*(?:fn|struct|enum)\b)', mt)
+                        if mv and not re.search(r'\b(fn|struct|enum)\b', mt[:mv.start()]):
+                            text = text[:mv.start()] + text[mv.end():]
+                            nv = 1
                     if nv:
                         log.append(('V', nv))
                 if opts.get('vis') == 'pub':
